@@ -282,7 +282,11 @@ func RunCheck(p *Program, cfg *CheckConfig, seed int) int {
 		if cfg.Only != "" && !strings.Contains(FuncKey(fn), cfg.Only) {
 			continue
 		}
+		t0 := time.Now()
 		rep := p.CheckFunction(fn, cfg)
+		if os.Getenv("LHV_PROF") != "" {
+			fmt.Fprintf(os.Stderr, "PROF %.2f %d %s\n", time.Since(t0).Seconds(), len(rep.Results), FuncKey(fn))
+		}
 		reports = append(reports, rep)
 	}
 	lemmaRep := p.CheckLemmas(cfg)
